@@ -423,7 +423,7 @@ def gen_record_cases(rng, widths, n_sets, quick):
             rng.shuffle(recs)
         opts = {"schema": schema, "one_based": ob, "tril": ta, "sort": rng.random() < 0.5 if schema == "pairs" else True,
                 "validate": True, "decode": True, "with_x": True if schema == "bg2" else rng.random() < 0.7}
-        if label == "valid" and ta != "reflect" and rng.random() < 0.15:
+        if rng.random() < 0.15:        # integer chromosome-id columns (decode_chroms=False), every tril action
             opts["decode"] = False
         if rng.random() < 0.06:
             opts["validate"] = False
@@ -596,6 +596,23 @@ CLI_CORPUS = [
      "chunks": [[[1, 0, 0, 0, 5], [0, 1, 0, 0, 7], [5, 5, 0, 0, 1]]], "label": "cli:load_coo:valid"},
 ]
 
+# regression corpus D27 (repaired): decode_chroms=False (integer chrom id columns) + reflect + a lower-triangle record
+# raised "ValueError: assignment destination is read-only" under pandas copy-on-write
+D27_CASES = [
+    {"fn": "sanitize_records", "widths": [[10, 10], [35]],
+     "opts": {"schema": "pairs", "one_based": 1, "tril": "reflect", "sort": True, "validate": True, "decode": False, "with_x": True},
+     "chunks": [[[1, 35, 104, 1, 2, 105]]], "label": "D27:single"},
+    {"fn": "sanitize_records", "widths": [[10, 10], [35]],
+     "opts": {"schema": "pairs", "one_based": 1, "tril": "reflect", "sort": True, "validate": True, "decode": False, "with_x": True},
+     "chunks": [[[1, 1, 100, 1, 1, 101], [1, 35, 104, 1, 2, 105], [0, 10, 102, 0, 1, 103], [0, 12, 106, 0, 1, 107]]], "label": "D27:chunk"},
+    {"fn": "sanitize_records", "widths": [[3, 3, 2], [4, 4], [5]],
+     "opts": {"schema": "bg2", "one_based": 0, "tril": "reflect", "sort": True, "validate": True, "decode": False, "with_x": True},
+     "chunks": [[[2, 4, 5, 0, 7, 8], [1, 0, 4, -1, 3, 4], [1, 7, 8, 1, 0, 4]]], "label": "D27:bg2"},
+    {"fn": "sanitize_records", "widths": [[3, 3, 2], [4, 4], [5]],
+     "opts": {"schema": "pairs", "one_based": 0, "tril": "drop", "sort": False, "validate": True, "decode": False, "with_x": False},
+     "chunks": [[[2, 4, 0, 0, 7, 0], [0, 1, 0, 1, 3, 0]]], "label": "D27:drop"},
+]
+
 
 # ------------------------------------------------------------------ judging one case
 def judge(ctx, case, impl, model):
@@ -724,7 +741,7 @@ def run(ctx):
         cases += gen_pixel_cases(rng, widths, 8 if thorough else 3)
         cases += gen_cli_cases(rng, widths, (8 if thorough else 4) if label == "corpus" else (2 if thorough else 1))
         per_table.setdefault(canon_w(widths), [widths, []])[1].extend(cases)
-    for case in D2_CASES + CLI_CORPUS:
+    for case in D2_CASES + D27_CASES + CLI_CORPUS:
         per_table.setdefault(canon_w(case["widths"]), [case["widths"], []])[1].append(case)
     plan = list(per_table.values())
 
